@@ -12,8 +12,9 @@ import (
 var ctypes = []geom.CoordinatesType{geom.DimXY, geom.DimXYZ, geom.DimXYM, geom.DimXYZM}
 
 func measureGen(r *rand.Rand, n int, tier string, emit func(Case)) {
-	for i := 0; i < n; i++ {
-		if r.Intn(12) == 0 {
+	for i := 0; i < n+bigExtra(n); i++ {
+		big := i >= n // large sizes come last: the cases before them are the ones every earlier run saw
+		if !big && r.Intn(12) == 0 {
 			emit(sliverCase(r))
 			continue
 		}
@@ -22,7 +23,13 @@ func measureGen(r *rand.Rand, n int, tier string, emit func(Case)) {
 			l.N = 9 + r.Intn(8)
 		}
 		var g geom.Geometry
-		switch r.Intn(6) {
+		sel := r.Intn(6)
+		if big {
+			l, sel = bigLattice(r), -1
+		}
+		switch sel {
+		case -1:
+			g = l.bigAny()
 		case 0: // axis-aligned / Pythagorean lines: rational lineal centroid
 			var pts []geom.XY
 			p := l.pt()
